@@ -263,7 +263,8 @@ def c07(tier):
     jobs = [Job("h_c07::resolve_object", (0,), dict(S2), budget_s=3000, validate=30),
             Job("h_c07::resolve_object", (2,), dict(S2), budget_s=3000, validate=30),
             Job("h_c07::resolve_both", (), dict(S2), budget_s=3000, validate=30),
-            Job("h_c07::resolve_three", (), dict(S2), budget_s=3000, validate=30)]
+            Job("h_c07::resolve_three", (), dict(S2), budget_s=3000, validate=30),
+            Job("h_c12::resolve_array_conflict", (10,), dict(S2), budget_s=3000, validate=30)]
     return dict(jobs=jobs, bounds={"scenario": "base [a,b]; each replica concurrently updates a to a symbolic value or deletes it; exchange; every live leaf chosen; commit; propagate / independent resolutions on both replicas"},
                 assumptions=S2_ASSUME, note="melda.rs resolve_as / update_object / delete_object / get_* / read / commit / meld / refresh from MIR")
 
